@@ -15,7 +15,7 @@ RUNS_PER_JOB = {"quick": 2, "thorough": 5}
 # which modes carry evidence for which property (all traces are validated against all clauses)
 SERVES = {
     "C01": ("ff", "apps"), "C02": ("ff", "apps"), "C11": ("ff", "apps"), "C12": ("ff", "apps"), "C13": ("apps", "ff"), "C15": ("apps", "ff"),
-    "C06": ("fault", "race"),
+    "C06": ("fault", "race"), "C05": None,
 }
 
 
@@ -85,14 +85,34 @@ def sample_events(files, mode, n=3):
     return []
 
 
+USES_SINGLE = ("C05", "C11", "C12")
+
+
+def feed_single(rep, tier):
+    import p_single
+    data = p_single.single_results(tier)
+    rep.states += data["model_states"]
+    rep.transitions += data["model_transitions"]
+    rep.model_runs += data["models"]
+    if data["counterexamples"]:
+        rep.extra["model_counterexamples"] = data["counterexamples"]
+    rep.extra["schedules_replayed"] = data["schedules"]
+    for res in data["files"]:
+        res = dict(res, file=res["file"])
+        feed(rep, [res], None)
+    return data
+
+
 def run(prop, tier):
     import p_models
     rep = core.Report(prop, tier)
     for job in p_models.jobs(prop, tier):
         p_models.run_job(rep, job)
+    if prop in USES_SINGLE:
+        feed_single(rep, tier)
     files = ring_results(tier)
     feed(rep, files, SERVES.get(prop))
-    rep.samples = sample_events(files, SERVES[prop][0])
+    rep.samples = sample_events(files, (SERVES.get(prop) or ("ff",))[0])
     rep.assumptions = ["harness virtual bus arithmetic (vbus.rs), TLC/SANY/Json module",
                        "premises of DESIGN 5.1/5.2: fault-free runs inject nothing; cold stations start together; poll period <= Tsl/4",
                        "bounds Bconv/Brec of DESIGN 5.4"]
